@@ -33,8 +33,8 @@ def bounds(tier):
     if tier == "quick":
         return {"N": {1: list(range(6, 18)), 2: list(range(6, 12)), 3: [6, 7, 8]}, "N_cubic": {1: list(range(8, 20)), 2: [8, 9, 10, 11, 12], 3: [8, 9]},
                 "L": LS, "scales": SCALES, "chunk": 4096}
-    return {"N": {1: list(range(6, 30)), 2: list(range(6, 18)), 3: list(range(6, 12))},
-            "N_cubic": {1: list(range(8, 32)), 2: list(range(8, 20)), 3: list(range(8, 14))}, "L": LS, "scales": SCALES, "chunk": 4096}
+    return {"N": {1: list(range(6, 30)), 2: list(range(6, 18)), 3: list(range(6, 11))},
+            "N_cubic": {1: list(range(8, 32)), 2: list(range(8, 20)), 3: list(range(8, 12))}, "L": LS, "scales": SCALES, "chunk": 4096}
 
 
 # term name -> (dims, channels(D), degree, fraction)
@@ -86,7 +86,7 @@ def units(tier, seed):
                 if size > 700000:
                     continue
                 combos = [(LS[(N + D) % 3], SCALES[N % 3])]
-                if tier == "thorough" and size < 20000:
+                if tier == "thorough" and size * N**D < 3e6:
                     combos = list(itertools.product(LS, SCALES))
                 us.append({"name": f"{name}/D{D}/N{N}", "kind": "term", "term": name, "D": D, "N": N, "combos": combos, "chunk": b["chunk"],
                            "cost": size * (N**D) * len(combos)})
